@@ -315,7 +315,8 @@ def graph_ok(h, g):
             X.node(i) > 0, X.node(i) < A, h.get("_node_id#none", X.node(i)) == 0, h.get("_node_id", X.node(i)) == i)),
             patterns=[h.at(X.nodes, i)])),
         ("G-flags-mirror-the-graph", z3.And(
-            forall([i], imp(rng(i, 0, X.n), gn(h, X.nx, i) == z3.Not(X.is_removed(i))), patterns=[h.at(X.removed, i)]),
+            forall([i], imp(rng(i, 0, X.n), gn(h, X.nx, i) == z3.Not(X.is_removed(i))),
+                   patterns=[h.at(X.removed, i), z3.Select(h.get("$$gn", X.nx), i)]),
             forall([x], imp(gn(h, X.nx, x), rng(x, 0, X.n)), patterns=[z3.Select(h.get("$$gn", X.nx), x)]))),
         ("G-edges-join-present-nodes", forall([u, v], imp(ge(h, X.nx, u, v) != 0, z3.And(gn(h, X.nx, u), gn(h, X.nx, v))),
                                               patterns=[z3.Select(h.get("$$ge", X.nx), Pair(u, v))])),
@@ -588,7 +589,19 @@ def op_nodes(h, g, I, upto_job=None, upto_pos=None):
         dom = z3.And(dom, j < upto_job if upto_pos is None else z3.Or(j < upto_job, z3.And(j == upto_job, p < upto_pos)))
     return forall([j, p], imp(dom, z3.And(
         h.get("node_type", nd) == T_OP, h.get("_operation", nd) == o, h.get("_node_id", nd) == h.get("operation_id", o),
-        h.at(h.at(X.by_job, j), p) == nd, h.at(h.at(X.by_type, T_OP), k) == nd)), patterns=[it.op(j, p)])
+        h.at(h.at(X.by_job, j), p) == nd, h.at(h.at(X.by_type, T_OP), k) == nd)),
+        patterns=[it.op(j, p), h.at(h.at(X.by_job, j), p)])
+
+
+def op_nodes_by_index(h, g, I, upto):
+    """node k < upto is the node of the operation whose id is k"""
+    X = G(h, g)
+    it = Inst(h, I)
+    k = bv("nk")
+    nd = X.node(k)
+    o = h.get("_operation", nd)
+    return forall([k], imp(rng(k, 0, upto), z3.And(h.get("node_type", nd) == T_OP, it.is_op(o),
+                                                   it.cumL(it.jid(o)) + it.pos(o) == k)), patterns=[h.at(X.nodes, k)])
 
 
 def job_rows_filled(h, g, I, upto_job, upto_pos=None):
@@ -651,7 +664,8 @@ class GraphAddOperationNodes(Contract):
         it = Inst(h0, X0.I)
         i = bv("gi")
         return graph_ok(h, g) + tables_ok(h, g) + [
-            ("one-node-per-operation-with-node-id=operation-id", z3.And(X.n == it.N, op_nodes(h, g, X0.I))),
+            ("one-node-per-operation-with-node-id=operation-id", z3.And(X.n == it.N, op_nodes(h, g, X0.I),
+                                                                        op_nodes_by_index(h, g, X0.I, it.N))),
             ("job-rows-complete", z3.And(job_rows_filled(h, g, X0.I, it.J), h.len(h.at(X.by_type, T_OP)) == it.N)),
             ("nothing-removed-no-edges", z3.And(
                 forall([i], imp(rng(i, 0, X.n), z3.Not(X.is_removed(i))), patterns=[h.at(X.removed, i)]),
@@ -671,7 +685,7 @@ class GraphAddOperationNodes(Contract):
             return graph_ok(h, g) + tables_ok(h, g) + [
                 ("same-graph-object", z3.And(X.nx == X0.nx, X.I == X0.I, X.nodes == X0.nodes, X.by_type == X0.by_type,
                                              X.by_job == X0.by_job, X.by_machine == X0.by_machine, X.removed == X0.removed)),
-                ("nodes-so-far", z3.And(X.n == done, op_nodes(h, g, X0.I, j, p))),
+                ("nodes-so-far", z3.And(X.n == done, op_nodes(h, g, X0.I, j, p), op_nodes_by_index(h, g, X0.I, done))),
                 ("rows-so-far", z3.And(job_rows_filled(h, g, X0.I, j, p), h.len(h.at(X.by_type, T_OP)) == done)),
                 ("nothing-removed-no-edges", z3.And(
                     forall([i], imp(rng(i, 0, X.n), z3.Not(X.is_removed(i))), patterns=[h.at(X.removed, i)]),
@@ -722,10 +736,323 @@ class GraphInit(Contract):
         return graph_ok(h, g) + tables_ok(h, g) + [
             ("instance-kept", X.I == I),
             ("with-operation-nodes:one-node-per-operation-with-node-id=operation-id",
-             imp(flag, z3.And(X.n == it.N, op_nodes(h, g, I), job_rows_filled(h, g, I, it.J),
+             imp(flag, z3.And(X.n == it.N, op_nodes(h, g, I), op_nodes_by_index(h, g, I, it.N), job_rows_filled(h, g, I, it.J),
                               h.len(h.at(X.by_type, T_OP)) == it.N))),
             ("without:no-nodes", imp(z3.Not(flag), X.n == 0)),
             ("nothing-removed-no-edges", z3.And(
                 forall([i], imp(rng(i, 0, X.n), z3.Not(X.is_removed(i))), patterns=[h.at(X.removed, i)]),
                 forall([u, v], ge(h, X.nx, u, v) == 0, patterns=[z3.Select(h.get("$$ge", X.nx), Pair(u, v))]))),
         ]
+
+
+# ---------------------------------------------------------------------------
+# edges
+# ---------------------------------------------------------------------------
+E_CONJ, E_DISJ = 0, 1
+
+
+def _edge_code(c):
+    v = c.args.get("type")
+    if v is None or v.ty.kind == "none":
+        return z3.IntVal(UNTYPED)
+    if v.ty.kind == "opt":
+        return z3.If(v.aux, z3.IntVal(UNTYPED), v.t.t + 1)
+    return v.t + 1
+
+
+def _end_id(h, v):
+    """node id denoted by a `Node | int` argument"""
+    tag, nd, num = v.t
+    return z3.If(tag, h.get("_node_id", nd.t), num.t)
+
+
+def _end_has_no_id(h, v):
+    tag, nd, num = v.t
+    return z3.And(tag, h.get("_node_id#none", nd.t) != 0)
+
+
+def edges_updated(h0, h, G0, upd):
+    """edge map after = edge map before, except where upd(u, v) gives a code"""
+    u, v = bv("eu"), bv("ev")
+    new, old = z3.Select(h.get("$$ge", G0), Pair(u, v)), z3.Select(h0.get("$$ge", G0), Pair(u, v))
+    return forall([u, v], new == upd(u, v, old), patterns=[z3.Select(h.get("$$ge", G0), Pair(u, v))])
+
+
+@ext_method("DiGraph", "add_edge$kw", "(see add_edge)")
+def _unused(eng, e, st, obj):   # pragma: no cover
+    raise OutsideSubset("internal")
+
+
+_orig_add_edge = _g_add_edge
+
+
+def _g_add_edge_kw(eng, e, st, obj):
+    """self.graph.add_edge(u, v, **attr): the `type` keyword travels through **attr"""
+    import ast as _ast
+    if any(k.arg is None for k in e.keywords) and "type" in st.env and not any(k.arg == "type" for k in e.keywords):
+        e2 = _ast.copy_location(_ast.Call(func=e.func, args=e.args, keywords=[k for k in e.keywords if k.arg is not None] + [
+            _ast.keyword(arg="type", value=_ast.copy_location(_ast.Name(id="type", ctx=_ast.Load()), e))]), e)
+        _ast.fix_missing_locations(e2)
+        tv = st.env["type"]
+        if tv.ty.kind == "opt":
+            # forwarded only when the caller gave it: two cases
+            out = []
+            s_no = st.copy()
+            s_no.assume(tv.aux)
+            e3 = _ast.copy_location(_ast.Call(func=e.func, args=e.args, keywords=[]), e)
+            _ast.fix_missing_locations(e3)
+            if eng.feasible(s_no):
+                out.extend(_orig_add_edge(eng, e3, s_no, obj))
+            st.assume(z3.Not(tv.aux))
+            if eng.feasible(st):
+                saved = st.env["type"]
+                st.env["type"] = tv.t
+                res = _orig_add_edge(eng, e2, st, obj)
+                for s2, _ in res:
+                    s2.env["type"] = saved
+                out.extend(res)
+            return out
+        return _orig_add_edge(eng, e2, st, obj)
+    return _orig_add_edge(eng, e, st, obj)
+
+
+from pyvc.library import EXT_MODELS as _EM  # noqa: E402
+_EM[("DiGraph", "add_edge")] = _g_add_edge_kw
+del _EM[("DiGraph", "add_edge$kw")]
+
+
+@register
+class GraphAddEdge(Contract):
+    name = "JobShopGraph.add_edge"
+    properties = ("C16",)
+    params = {"self": REF("JobShopGraph"), "u_of_edge": UNION(REF("Node"), INT), "v_of_edge": UNION(REF("Node"), INT)}
+    extra_params = {"type": OPT(Ty("enum", "EdgeType"))}
+
+    def requires(self, c):
+        h = c.h0
+        u, v = c.val("u_of_edge"), c.val("v_of_edge")
+        return graph_ok(h, c["self"]) + [("nodes-given", z3.And(imp(u.t[0], u.t[1].t > 0), imp(v.t[0], v.t[1].t > 0)))]
+
+    def raises(self, c):
+        h = c.h0
+        X = G(h, c["self"])
+        u, v = c.val("u_of_edge"), c.val("v_of_edge")
+        noid = z3.Or(_end_has_no_id(h, u), _end_has_no_id(h, v))
+        return [("UninitializedAttributeError", "node-without-id", noid),
+                ("ValidationError", "end-not-in-the-graph", z3.And(z3.Not(noid), z3.Or(
+                    z3.Not(gn(h, X.nx, _end_id(h, u))), z3.Not(gn(h, X.nx, _end_id(h, v))))))]
+
+    def modifies(self, c):
+        X = G(c.h0, c["self"])
+        return Frame(fields={"$$ge": [X.nx], "$$gn": [X.nx]})
+
+    def ensures(self, c):
+        h0, h, g = c.h0, c.h, c["self"]
+        X0 = G(h0, g)
+        a, b = _end_id(h0, c.val("u_of_edge")), _end_id(h0, c.val("v_of_edge"))
+        code = _edge_code(c)
+        x = bv("gx")
+        return graph_ok(h, g) + [
+            ("exactly-this-edge-set-to-the-given-type", edges_updated(
+                h0, h, X0.nx, lambda u, v, old: z3.If(z3.And(u == a, v == b), code, old))),
+            ("node-set-unchanged", forall([x], gn(h, X0.nx, x) == gn(h0, X0.nx, x), patterns=[z3.Select(h.get("$$gn", X0.nx), x)]))]
+
+
+# ---------------------------------------------------------------------------
+# builders of the disjunctive graph
+# ---------------------------------------------------------------------------
+def op_graph(h, g):
+    """what the builders rely on: a well-formed graph whose first N nodes are the operation nodes, nothing removed"""
+    from .instance import numbered
+    X = G(h, g)
+    it = Inst(h, X.I)
+    i = bv("gi")
+    return graph_ok(h, g) + tables_ok(h, g) + valid_instance(h, X.I, bound=g) + cum_facts(h, X.I) + [
+        ("operations-numbered", numbered(h, X.I)),
+        ("operation-nodes-first", z3.And(X.n >= it.N, op_nodes(h, g, X.I), op_nodes_by_index(h, g, X.I, it.N),
+                                         job_rows_filled(h, g, X.I, it.J), h.len(h.at(X.by_type, T_OP)) == it.N)),
+        ("nothing-removed", forall([i], imp(rng(i, 0, X.n), z3.Not(X.is_removed(i))), patterns=[h.at(X.removed, i)]))]
+
+
+def op_of(h, g, k):
+    return h.get("_operation", G(h, g).node(k))
+
+
+def conj_pair(h, g, u, v):
+    """u, v are the nodes of successive operations of one job"""
+    X = G(h, g)
+    it = Inst(h, X.I)
+    return z3.And(rng(u, 0, it.N), v == u + 1, v < it.N, it.jid(op_of(h, g, u)) == it.jid(op_of(h, g, v)))
+
+
+def same_graph(h0, h, g):
+    X0, X = G(h0, g), G(h, g)
+    return z3.And(X.nx == X0.nx, X.I == X0.I, X.nodes == X0.nodes, X.by_type == X0.by_type, X.by_job == X0.by_job,
+                  X.by_machine == X0.by_machine, X.removed == X0.removed)
+
+
+class _Builder(Contract):
+    properties = ("C16",)
+    params = {"graph": REF("JobShopGraph")}
+
+    def requires(self, c):
+        return op_graph(c.h0, c["graph"])
+
+    def modifies(self, c):
+        X = G(c.h0, c["graph"])
+        return Frame(fields={"$$ge": [X.nx], "$$gn": [X.nx]})
+
+    def kept(self, c):
+        h0, h, g = c.h0, c.h, c["graph"]
+        x = bv("gx")
+        X0 = G(h0, g)
+        return [("same-graph-object", same_graph(h0, h, g)),
+                ("node-set-unchanged", forall([x], gn(h, X0.nx, x) == gn(h0, X0.nx, x), patterns=[z3.Select(h.get("$$gn", X0.nx), x)]))]
+
+
+@register
+class AddConjunctiveEdges(_Builder):
+    name = "add_conjunctive_edges"
+
+    def upd(self, c_h0, g, limit=None):
+        X = G(c_h0, g)
+        it = Inst(c_h0, X.I)
+
+        def f(u, v, old):
+            cond = conj_pair(c_h0, g, u, v)
+            if limit is not None:
+                cond = z3.And(cond, limit(it.jid(op_of(c_h0, g, v)), it.pos(op_of(c_h0, g, v))))
+            return z3.If(cond, z3.IntVal(E_CONJ + 1), old)
+        return f
+
+    def ensures(self, c):
+        h0, h, g = c.h0, c.h, c["graph"]
+        return graph_ok(h, g) + self.kept(c) + [
+            ("exactly-the-job-chain-edges-added-typed-conjunctive", edges_updated(h0, h, G(h0, g).nx, self.upd(h0, g)))]
+
+    @property
+    def loops(self):
+        def common(k, lim):
+            h0, h, g = k.h0, k.h, k["graph"]
+            x = bv("gx")
+            X0 = G(h0, g)
+            return graph_ok(h, g) + [
+                ("same-graph-object", same_graph(h0, h, g)),
+                ("node-set-unchanged", forall([x], gn(h, X0.nx, x) == gn(h0, X0.nx, x), patterns=[z3.Select(h.get("$$gn", X0.nx), x)])),
+                ("edges-so-far", edges_updated(h0, h, X0.nx, self.upd(h0, g, lim)))]
+
+        def outer(k):
+            return common(k, lambda j, p: j < k.i)
+
+        def inner(k):
+            h0, g = k.h0, k["graph"]
+            X0 = G(h0, g)
+            it = Inst(h0, X0.I)
+            j0 = k.outer[-1]
+            return [("row", z3.And(k.v("job_operations") == h0.at(X0.by_job, j0), rng(j0, 0, it.J), k.n == it.L(j0) - 1))] + \
+                common(k, lambda j, p: z3.Or(j < j0, z3.And(j == j0, p <= k.i)))
+
+        def mod(k):
+            X = G(k.h0, k["graph"])
+            return Frame(fields={"$$ge": [X.nx], "$$gn": [X.nx]})
+        return {0: LoopSpec("for job_operations in graph.nodes_by_job", outer, mod),
+                1: LoopSpec("for i in range(1, len(job_operations))", inner, mod)}
+
+
+for _n in ("nodes", "nodes_by_type", "nodes_by_machine", "nodes_by_job"):
+    class _P(Contract):
+        name = f"JobShopGraph.{_n}"
+        properties = ("C16",)
+        params = {"self": REF("JobShopGraph")}
+        ret = LIST(REF("Node")) if _n == "nodes" else LIST(LIST(REF("Node")))
+        pure = True
+        field = "_" + _n
+
+        def requires(self, c):
+            return [("self", c["self"] > 0)]
+
+        def ensures(self, c):
+            return [("value", c.result == c.h0.get(self.field, c["self"]))]
+    register(_P)
+
+
+def source_sink(h, g):
+    """nodes N and N+1 are the source and the sink, the only entries of their type rows"""
+    X = G(h, g)
+    it = Inst(h, X.I)
+    S, T = X.node(it.N), X.node(it.N + 1)
+    rs, rt = h.at(X.by_type, T_SOURCE), h.at(X.by_type, T_SINK)
+    return z3.And(X.n == it.N + 2, h.get("node_type", S) == T_SOURCE, h.get("node_type", T) == T_SINK,
+                  h.len(rs) == 1, h.at(rs, 0) == S, h.len(rt) == 1, h.at(rt, 0) == T)
+
+
+@register
+class AddSourceSinkNodes(_Builder):
+    name = "add_source_sink_nodes"
+
+    def requires(self, c):
+        h, g = c.h0, c["graph"]
+        X = G(h, g)
+        it = Inst(h, X.I)
+        return op_graph(h, g) + [("only-operation-nodes-so-far", z3.And(
+            X.n == it.N, h.len(h.at(X.by_type, T_SOURCE)) == 0, h.len(h.at(X.by_type, T_SINK)) == 0))]
+
+    def modifies(self, c):
+        h, g = c.h0, c["graph"]
+        X = G(h, g)
+        return Frame(fields={"_next_node_id": [g], "$$gn": [X.nx]}, lists=graph_lists_frame(h, g),
+                     alloc_objects=NODE_FIELDS + ["$type"])
+
+    def ensures(self, c):
+        h0, h, g = c.h0, c.h, c["graph"]
+        X0, X = G(h0, g), G(h, g)
+        return op_graph(h, g) + [("same-graph-object", same_graph(h0, h, g)),
+                                 ("source-then-sink-appended", source_sink(h, g)),
+                                 ("no-edge-changes", h.get("$$ge", X.nx) == h0.get("$$ge", X0.nx))]
+
+
+@register
+class AddSourceSinkEdges(_Builder):
+    name = "add_source_sink_edges"
+
+    def requires(self, c):
+        return op_graph(c.h0, c["graph"]) + [("source-and-sink-present", source_sink(c.h0, c["graph"]))]
+
+    def upd(self, h0, g, upto=None):
+        X = G(h0, g)
+        it = Inst(h0, X.I)
+        S, T = it.N, it.N + 1
+
+        def f(u, v, old):
+            ou, ov = op_of(h0, g, u), op_of(h0, g, v)
+            first = z3.And(u == S, rng(v, 0, it.N), it.pos(ov) == 0)
+            last = z3.And(v == T, rng(u, 0, it.N), it.pos(ou) == it.L(it.jid(ou)) - 1)
+            if upto is not None:
+                first = z3.And(first, it.jid(ov) < upto)
+                last = z3.And(last, it.jid(ou) < upto)
+            return z3.If(z3.Or(first, last), z3.IntVal(E_CONJ + 1), old)
+        return f
+
+    def ensures(self, c):
+        h0, h, g = c.h0, c.h, c["graph"]
+        return graph_ok(h, g) + self.kept(c) + [
+            ("exactly-source->first-and-last->sink-edges-added-typed-conjunctive",
+             edges_updated(h0, h, G(h0, g).nx, self.upd(h0, g)))]
+
+    @property
+    def loops(self):
+        def inv(k):
+            h0, h, g = k.h0, k.h, k["graph"]
+            x = bv("gx")
+            X0 = G(h0, g)
+            it = Inst(h0, X0.I)
+            return graph_ok(h, g) + [
+                ("same-graph-object", same_graph(h0, h, g)),
+                ("node-set-unchanged", forall([x], gn(h, X0.nx, x) == gn(h0, X0.nx, x), patterns=[z3.Select(h.get("$$gn", X0.nx), x)])),
+                ("source-and-sink", z3.And(k.v("source") == X0.node(it.N), k.v("sink") == X0.node(it.N + 1), k.n == it.J)),
+                ("edges-so-far", edges_updated(h0, h, X0.nx, self.upd(h0, g, k.i)))]
+
+        def mod(k):
+            X = G(k.h0, k["graph"])
+            return Frame(fields={"$$ge": [X.nx], "$$gn": [X.nx]})
+        return {0: LoopSpec("for job_operations in graph.nodes_by_job", inv, mod)}
